@@ -51,6 +51,8 @@ type Runtime struct { //nolint:govet
 	runCtxCancel context.CancelFunc
 
 	options options.Options
+
+	verif verifRT
 }
 
 type watchKey struct {
@@ -385,6 +387,8 @@ func (runtime *Runtime) deduplicateWatchEvents(ch chan dedup, empty chan dedup) 
 		case events = <-runtime.watchCh:
 		}
 
+		runtime.verifBatch(events)
+
 		// acquire a map
 		var m dedup
 
@@ -395,12 +399,18 @@ func (runtime *Runtime) deduplicateWatchEvents(ch chan dedup, empty chan dedup) 
 			return
 		}
 
+		runtime.verifMap("acquire", m, "")
+
 		if !runtime.processEvents(events, m) {
 			return
 		}
 
+		runtime.verifMap("processed", m, "")
+
 		// we might have not accumulated any events
 		if len(m) == 0 {
+			runtime.verifMap("handover", m, "empty")
+
 			if !channel.SendWithContext(runtime.runCtx, empty, m) {
 				return
 			}
@@ -413,15 +423,21 @@ func (runtime *Runtime) deduplicateWatchEvents(ch chan dedup, empty chan dedup) 
 		for {
 			select {
 			case events = <-runtime.watchCh:
+				runtime.verifBatch(events)
+
 				if !runtime.processEvents(events, m) {
 					return
 				}
+
+				runtime.verifMap("processed", m, "")
 			case <-runtime.runCtx.Done():
 				return
 			default:
 				break drainer
 			}
 		}
+
+		runtime.verifMap("handover", m, "ch")
 
 		// send the map to the second goroutine for processing
 		if !channel.SendWithContext(runtime.runCtx, ch, m) {
@@ -447,10 +463,14 @@ func (runtime *Runtime) deliverDeduplicatedEvents(ch chan dedup, empty chan<- de
 
 		// send the map back to the first goroutine
 		if len(m) > 0 {
+			runtime.verifTake(&k, m, "ch")
+
 			if !channel.SendWithContext(runtime.runCtx, ch, m) {
 				return
 			}
 		} else {
+			runtime.verifTake(&k, m, "empty")
+
 			if !channel.SendWithContext(runtime.runCtx, empty, m) {
 				return
 			}
@@ -477,6 +497,7 @@ func (runtime *Runtime) deliverDeduplicatedEvents(ch chan dedup, empty chan<- de
 		}
 
 		runtime.controllersMu.RUnlock()
+		runtime.verifTriggered(&k, controllers)
 	}
 }
 
